@@ -26,7 +26,7 @@ PLAN = dict(
                 "held means held on the trees observed, with all 8 completeness classes populated."),
     level_note="uses the real file system, so no Miri stage; unreadable directories cannot be produced as root",
     not_explored=["package directories whose names are not UTF-8 or contain no '-' (C17 only)",
-                  "symlinks, unreadable directories, mandatory entries that are directories, empty mandatory files",
+                  "symlinks, unreadable directories, mandatory entries that are directories, non-UTF-8 mandatory files (read_metadata cannot return them)",
                   "nested package directories",
                   "whitespace-only metadata texts and repeated read_metadata calls for one entry (is_valid)",
                   "metadata files that are not valid UTF-8"],
